@@ -35,6 +35,7 @@ def run(rep, prog, tier):
     r3(rep, prog)
     r4(rep, prog)
     r5(rep, prog)
+    r6(rep, prog)
 
 
 def r4(rep, prog):
@@ -113,6 +114,28 @@ def r5(rep, prog):
         rep.check(not missing, R, "%s drops the per-block caches when it moves the skip reader" % short(fid), "stores block_max_score_cache and block_loaded",
                   "`%s` moves the skip reader of the block cursor but does not reset %s: the cached value belongs to the previous block" % (fid, missing), site=site(b, moves[0]))
     rep.floor(R, "BlockSegmentPostings methods that move the skip reader", n, 3)
+
+
+def r6(rep, prog):
+    """the lazy threshold test of a segment compares with the comparator the top-K buffer uses"""
+    R = "C06-R6"
+    rep.rule(R, "one comparator per sort key, also per segment: a SegmentSortKeyComputerWithComparator (whose comparator decides, in accept_sort_key_lazy, whether a document can still enter the top K) is built with the value of the SortKeyComputer's own comparator() — the function the TopNComputer and merge_top_k take their comparator from. A hand-picked ComparatorEnum at this level disagrees with them on where a missing value sorts: once the threshold is a None key, every later document with a value is rejected")
+    n = 0
+    for fid, b in sorted(prog.bodies.items()):
+        if "tantivy::collector::" not in fid or "::tests::" in fid:
+            continue
+        for bi in b.normal_blocks():
+            for st in b.stmts(bi):
+                if st.get("r") == "agg" and (st.get("adt") or "").endswith("SegmentSortKeyComputerWithComparator") and "comparator" in (st.get("fields") or []):
+                    n += 1
+                    o = st["o"][st["fields"].index("comparator")]
+                    l = op_local(o)
+                    lv = provenance(b, l) if l is not None else {("const", str(o.get("v")))}
+                    okk = bool(lv) and all(x[0] == "call" and x[1].endswith("::comparator") and "SortKeyComputer" in x[1] for x in lv)
+                    rep.check(okk, R, "%s builds its segment computer with self.comparator()" % short(fid)[:110], "comparator <- SortKeyComputer::comparator(self)",
+                              "`%s` builds the per-segment sort-key computer with a comparator that is not the value of its own comparator() (sources: %s): the lazy threshold test and the top-K buffer order "
+                              "keys differently" % (fid, sorted(str(x[:2]) for x in lv)[:3]), site=site(b, bi))
+    rep.floor(R, "constructions of SegmentSortKeyComputerWithComparator", n, 2)
 
 
 def r3(rep, prog):
